@@ -12,6 +12,11 @@ TABLE_NOTE = (
     "integers. Exhaustive only inside the stated constants; beyond them seeded random histories."
 )
 
+PKG_NOTE = (
+    "Trusted: TLC, zipfile, os.walk, lxml C14N, the digest/identifier assignment in harness/pkg_driver.py and the white-space reader "
+    "harness/odftext.py. The meta:generator stamp and zip directory entries are exempt. Flat XML: well-formedness and content inclusion only."
+)
+
 CHECKS = {
     "C01": dict(
         text="Abstract grid spec (Grid.tla) model-checked exhaustively by TLC for the locality/shift/size laws (GridMC.tla); every transition "
@@ -65,6 +70,49 @@ CHECKS = {
         ref="DESIGN.md section 4 C19",
         technique="TLC-enumerated tables replayed into the code + TLC trace validation of reads under every coordinate form",
         note=TABLE_NOTE,
+    ),
+    "C03": dict(
+        text="PackageMC.tla (implementation-shaped: lazily read parts, parsed-part cache, manifest as bytes/parsed) is checked exhaustively "
+        "by TLC against the caller's belief (SaveFaithful, MemoryIsBelief); PackageTrace.tla validates recorded histories of real documents "
+        "(templates, all samples; path/BytesIO/folder; DOM edits through old and fresh handles, set_part, add_file, del_part; zip/folder/flat "
+        "saves; reopen; clone): after each save the target is read with zipfile/os.walk+lxml only and compared with the model's belief.",
+        ref="DESIGN.md section 4 C03",
+        technique="TLC exhaustive check of the impl-shaped package design + TLC trace validation of recorded save/reopen histories",
+        note=PKG_NOTE,
+    ),
+    "C04": dict(
+        text="Same specifications as C03; verdict clauses are the zip-layer and manifest rules evaluated by TLC on the independent reading of "
+        "every saved package of every history (mimetype first/stored/equal to type, no duplicate entry, manifest lists each file exactly once "
+        "and nothing absent, root media type), including saves of the untouched twin after a clone.",
+        ref="DESIGN.md section 4 C04",
+        technique="TLC trace validation of recorded histories (zipfile infolist + independent manifest parse) + TLC model check (ManifestCoherent)",
+        note=PKG_NOTE,
+    ),
+    "C10": dict(
+        text="Two-object models: PackageTrace.tla (documents: equal at birth, untouched twin keeps its state also when saved), GridTrace.tla "
+        "(tables cloned mid-history with warmed caches, both sides edited in a random interleaving, each against the Grid model and the other "
+        "side required unchanged), TwinTrace.tla (elements, cells, rows, columns, frames, lists, XML parts, containers from BytesIO / zip path "
+        "with unread parts / folder); PackageMC.tla CloneEqualAtBirth on the lazy-parts design.",
+        ref="DESIGN.md section 4 C10",
+        technique="TLC trace validation against two-object (twin) specifications + TLC model check of the clone design",
+        note=PKG_NOTE + " The Python heap is not modelled; sharing is detected through its effect on the twin.",
+    ),
+    "C11": dict(
+        text="PackageMC.tla SaveNeutral (Save changes no answer of the live document); PackageTrace.tla clauses C11: pretty/folder saves write "
+        "the same loose form (structure, attributes, ODF-collapsed readable text of every paragraph/heading) as the belief, plain saves the "
+        "same strict form, and the document's own view re-read after every save equals the belief; sources include generated documents with "
+        "every inline kind next to every other.",
+        ref="DESIGN.md section 4 C11",
+        technique="TLC model check (SaveNeutral) + TLC trace validation with strict/loose content identifiers",
+        note=PKG_NOTE + " loose form = harness/odftext.py (ODF 1.2 part 1 section 6.1.2).",
+    ),
+    "C15": dict(
+        text="PackageTrace.tla op 'pure': about 1400 introspected + curated read-only entry points called twice in random order on templates, "
+        "samples and generated documents; TLC requires every part identifier (content, styles, meta, settings, manifest) unchanged and the "
+        "second answer equal to the first.",
+        ref="DESIGN.md section 4 C15",
+        technique="TLC trace validation of read-only calls (stuttering requirement on the package model)",
+        note=PKG_NOTE + " Read-only classification is by name/docstring, kept in harness/pure_driver.py.",
     ),
 }
 
